@@ -26,7 +26,7 @@ func TestMain(m *testing.M) { fx.Main(m, "C15") }
 var allOps = []string{"Login", "NewProxy", "CloseProxy", "Ping", "NewWorkConn", "NewUserConn"}
 
 // outcomes of one plugin for one consultation
-var outcomes = []string{"accept", "accept", "accept", "modify", "modify", "reject", "reject-unchange", "http500", "http404", "http302", "reset", "badjson", "wrongtypes", "emptybody", "truncated", "trailing", "trailing-reject"}
+var outcomes = []string{"accept", "accept", "accept", "modify", "modify", "scrub", "scrub", "reject", "reject-unchange", "http500", "http404", "http302", "reset", "badjson", "wrongtypes", "emptybody", "truncated", "trailing", "trailing-reject"}
 
 type PluginSpec struct {
 	Ops     []string          `json:"ops"`
@@ -143,6 +143,14 @@ func (st *stub) handle(w http.ResponseWriter, r *http.Request) {
 		}
 		b, _ := json.Marshal(map[string]any{"reject": false, "unchange": false, "content": c})
 		_, _ = w.Write(b)
+	case "scrub":
+		// an edit that REMOVES something: the entry "role" of the metas map, and nothing else
+		c := req.Content
+		if metas, ok := c["metas"].(map[string]any); ok {
+			delete(metas, "role")
+		}
+		b, _ := json.Marshal(map[string]any{"reject": false, "unchange": false, "content": c})
+		_, _ = w.Write(b)
 	case "reject":
 		_, _ = w.Write([]byte(`{"reject":true,"reject_reason":"no"}`))
 	case "reject-unchange":
@@ -180,7 +188,7 @@ func (st *stub) handle(w http.ResponseWriter, r *http.Request) {
 	}
 }
 
-func isAccept(o string) bool { return o == "accept" || o == "modify" }
+func isAccept(o string) bool { return o == "accept" || o == "modify" || o == "scrub" }
 
 // ---- (a)+(b): Manager with real HTTP plugins against the stub server ------------------------------
 
@@ -259,18 +267,21 @@ func runM(c MCase) error {
 	start := "v0"
 	var err error
 	var final string
+	var finalMetas map[string]string
 	switch c.Op {
 	case "Login":
 		var r *plugin.LoginContent
-		r, err = m.Login(&plugin.LoginContent{Login: msg.Login{User: start}})
+		r, err = m.Login(&plugin.LoginContent{Login: msg.Login{User: start, Metas: map[string]string{"role": "admin", "keep": "1"}}})
 		if err == nil {
 			final = r.User
+			finalMetas = r.Metas
 		}
 	case "NewProxy":
 		var r *plugin.NewProxyContent
-		r, err = m.NewProxy(&plugin.NewProxyContent{User: user, NewProxy: msg.NewProxy{ProxyName: start, ProxyType: "tcp"}})
+		r, err = m.NewProxy(&plugin.NewProxyContent{User: user, NewProxy: msg.NewProxy{ProxyName: start, ProxyType: "tcp", Metas: map[string]string{"role": "admin", "keep": "1"}}})
 		if err == nil {
 			final = r.ProxyName
+			finalMetas = r.Metas
 		}
 	case "CloseProxy":
 		err = m.CloseProxy(&plugin.CloseProxyContent{User: user, CloseProxy: msg.CloseProxy{ProxyName: start}})
@@ -310,6 +321,29 @@ func runM(c MCase) error {
 		f := markField(c.Op)[0]
 		if s, _ := cl.Content[f].(string); s != wantSeen[k] {
 			return fmt.Errorf("%s: plugin p%d received %s=%q, the previous plugins' edits give %q", c.Op, cl.Plugin, f, s, wantSeen[k])
+		}
+	}
+	if c.Op == "Login" || c.Op == "NewProxy" {
+		// edits that remove something: once a plugin has dropped the metas entry "role", nobody after it - neither the
+		// following plugins nor the server - sees it again; the entry it left alone stays
+		scrubbed := false
+		for k, cl := range calls {
+			metas, _ := cl.Content["metas"].(map[string]any)
+			_, hasRole := metas["role"]
+			_, hasKeep := metas["keep"]
+			if hasRole == scrubbed || !hasKeep {
+				return fmt.Errorf("%s: plugin p%d was shown metas %v; removed by an earlier plugin: role=%v (chain outcomes %v)", c.Op, cl.Plugin, metas, scrubbed, outcomesFor(c.Chain, c.Op))
+			}
+			if k < len(wantConsulted) && c.Chain[wantConsulted[k]].Outcome[c.Op] == "scrub" {
+				scrubbed = true
+			}
+		}
+		if err == nil {
+			_, hasRole := finalMetas["role"]
+			_, hasKeep := finalMetas["keep"]
+			if hasRole == scrubbed || !hasKeep {
+				return fmt.Errorf("%s: the content the server acts on has metas %v; a plugin removed the entry role: %v (chain outcomes %v)", c.Op, finalMetas, scrubbed, outcomesFor(c.Chain, c.Op))
+			}
 		}
 	}
 	if c.Op == "CloseProxy" {
